@@ -26,8 +26,11 @@ CHECKS = {
             "the specification's sorted wire-name sets",
             "TLA+ spec + TLC (exhaustive small scope), replay of TLC-enumerated inputs, trace validation"),
     "C06": ("static", "6 C06", "all 1024 combinations of overridden kinds x migrate x reply x replies feature x generic expanded by the real "
-            "entry_points macro in-process (verif-hook); set of emitted entry points and per-function token hashes judged by TLC against Static.tla",
-            "TLA+ spec + TLC (exhaustive configuration space), in-process expansion, trace validation of Expand events"),
+            "entry_points macro in-process (verif-hook), incl. overrides and handlers declared in the opposite order; set of emitted entry points and "
+            "per-function token hashes judged by TLC against Static.tla; forwarding: the compiled routing corpus (override programs O1-O7: context and "
+            "outcome forwarded, an overridden kind reaches the user's function through the multitest impl) and the legacy reply programs L1/L2 "
+            "(without the replies feature every reply reaches the single reply method whole)",
+            "TLA+ spec + TLC (exhaustive configuration space), in-process expansion, compiled corpora, trace validation"),
     "C13": ("static", "6 C13", "attribute placements over item/handler/helper/parameters for the three macros plus every annotated item of the "
             "repository's tests and examples; re-emitted item vs input skeleton and determinism (in-process and across processes) judged by TLC",
             "TLA+ spec + TLC, in-process expansion of generated and real sources, trace validation"),
